@@ -1,5 +1,189 @@
-//! C06 — not implemented yet.
+//! C06 — column-major storage, column-vector action: every accessor and product agrees with a plain
+//! `[[bits; R]; C]` model.
+//!
+//! glam-independent part: scalar trait, reference number types, generators.
+use vcore::num::DD;
+use vcore::*;
+
+pub mod refn {
+    use super::DD;
+    pub trait Num: Copy + std::fmt::Debug + PartialEq {
+        fn zero() -> Self;
+        fn nadd(self, o: Self) -> Self;
+        fn nsub(self, o: Self) -> Self;
+        fn nmul(self, o: Self) -> Self;
+        fn nabs(self) -> Self;
+        fn f(self) -> f64;
+    }
+    impl Num for f64 {
+        fn zero() -> f64 { 0.0 }
+        fn nadd(self, o: f64) -> f64 { self + o }
+        fn nsub(self, o: f64) -> f64 { self - o }
+        fn nmul(self, o: f64) -> f64 { self * o }
+        fn nabs(self) -> f64 { self.abs() }
+        fn f(self) -> f64 { self }
+    }
+    impl Num for DD {
+        fn zero() -> DD { DD::ZERO }
+        fn nadd(self, o: DD) -> DD { self.add(o) }
+        fn nsub(self, o: DD) -> DD { self.sub(o) }
+        fn nmul(self, o: DD) -> DD { self.mul(o) }
+        fn nabs(self) -> DD { self.abs() }
+        fn f(self) -> f64 { self.hi + self.lo }
+    }
+    impl Num for i128 {
+        fn zero() -> i128 { 0 }
+        fn nadd(self, o: i128) -> i128 { self + o }
+        fn nsub(self, o: i128) -> i128 { self - o }
+        fn nmul(self, o: i128) -> i128 { self * o }
+        fn nabs(self) -> i128 { self.abs() }
+        fn f(self) -> f64 { self as f64 }
+    }
+
+    /// The model of a matrix or affine map: `cols` columns of `rows` entries, a[c*rows + r]; an affine map has
+    /// cols = rows + 1 and its last column is the translation.
+    /// y = L x (+ t): y[r] = Σ_c a[c*rows + r] x[c] (+ a[rows*rows + r])
+    pub fn apply<X: Num>(rows: usize, lin_cols: usize, a: &[X], x: &[X], translate: bool) -> Vec<X> {
+        let mut y = vec![X::zero(); rows];
+        for r in 0..rows {
+            let mut s = X::zero();
+            for c in 0..lin_cols {
+                s = s.nadd(a[c * rows + r].nmul(x[c]));
+            }
+            if translate {
+                s = s.nadd(a[lin_cols * rows + r]);
+            }
+            y[r] = s;
+        }
+        y
+    }
+    /// composition C = A∘B in the same layout (square: matrix product; affine: linear = LA·LB, t = LA·tB + tA)
+    pub fn compose<X: Num>(rows: usize, cols: usize, a: &[X], b: &[X]) -> Vec<X> {
+        let affine = cols == rows + 1;
+        let mut out = vec![X::zero(); cols * rows];
+        for c in 0..cols {
+            let col = &b[c * rows..(c + 1) * rows];
+            let y = apply(rows, rows, a, col, affine && c == rows);
+            out[c * rows..(c + 1) * rows].copy_from_slice(&y);
+        }
+        out
+    }
+}
+
+pub trait Fl: Copy + PartialOrd + std::fmt::Debug + Default + 'static {
+    type R: refn::Num;
+    const BITS: u32;
+    const U: f64;
+    const TINY: f64;
+    fn fb(w: u64) -> Self;
+    fn tb(self) -> u64;
+    fn r(self) -> Self::R;
+    fn to64(self) -> f64;
+    fn of64(x: f64) -> Self;
+    fn ieq(a: Self, b: Self) -> bool;
+}
+impl Fl for f32 {
+    type R = f64;
+    const BITS: u32 = 32;
+    const U: f64 = vcore::num::U32;
+    const TINY: f64 = 1.5e-45;
+    #[inline] fn fb(w: u64) -> f32 { f32::from_bits(w as u32) }
+    #[inline] fn tb(self) -> u64 { self.to_bits() as u64 }
+    #[inline] fn r(self) -> f64 { self as f64 }
+    #[inline] fn to64(self) -> f64 { self as f64 }
+    #[inline] fn of64(x: f64) -> f32 { x as f32 }
+    #[inline] fn ieq(a: f32, b: f32) -> bool { (a.is_nan() && b.is_nan()) || a == b }
+}
+impl Fl for f64 {
+    type R = DD;
+    const BITS: u32 = 64;
+    const U: f64 = vcore::num::U64;
+    const TINY: f64 = 5e-324;
+    #[inline] fn fb(w: u64) -> f64 { f64::from_bits(w) }
+    #[inline] fn tb(self) -> u64 { self.to_bits() }
+    #[inline] fn r(self) -> DD { DD::new(self) }
+    #[inline] fn to64(self) -> f64 { self }
+    #[inline] fn of64(x: f64) -> f64 { x }
+    #[inline] fn ieq(a: f64, b: f64) -> bool { (a.is_nan() && b.is_nan()) || a == b }
+}
+
+pub mod gen {
+    use proptest::prelude::*;
+    use proptest::strategy::BoxedStrategy;
+    use vcore::lattice;
+
+    /// `n` entry bit patterns: independent lattice lanes, or pairwise distinct ordinary values
+    /// (an arithmetic progression of floats from a random start) with up to two specials
+    /// (NaN payloads, -0, inf, subnormal) injected at random positions.
+    pub fn entries(bits: u32, n: usize) -> BoxedStrategy<Vec<u64>> {
+        let lat = lattice::lanes(bits, n);
+        let distinct = (-1000i32..1000, 1i32..50, 0u8..4, proptest::collection::vec((0usize..n, lattice::lat(bits)), 0..=2))
+            .prop_map(move |(start, step, div, inj)| {
+                let d = [1.0f64, 2.0, 4.0, 8.0][div as usize];
+                let mut v: Vec<u64> = (0..n)
+                    .map(|k| {
+                        let x = (start as f64 + (k as i32 * step) as f64) / d;
+                        if bits == 32 {
+                            (x as f32).to_bits() as u64
+                        } else {
+                            x.to_bits()
+                        }
+                    })
+                    .collect();
+                for (i, b) in inj {
+                    v[i] = b;
+                }
+                v
+            })
+            .boxed();
+        prop_oneof![1 => lat, 1 => distinct].boxed()
+    }
+
+    /// `n` small integers in [-e, e]: pairwise distinct (a shuffled range) or independent
+    pub fn ints(n: usize, e: i64) -> BoxedStrategy<Vec<i64>> {
+        let all: Vec<i64> = (-e..=e).collect();
+        let distinct = Just(all).prop_shuffle().prop_map(move |v| v[..n].to_vec()).boxed();
+        let indep = proptest::collection::vec(-e..=e, n).boxed();
+        prop_oneof![1 => distinct, 1 => indep].boxed()
+    }
+
+    /// `n` reals with log-uniform magnitudes 2^-6..2^6, random signs, occasional zero
+    pub fn reals(n: usize) -> BoxedStrategy<Vec<f64>> {
+        proptest::collection::vec((any::<bool>(), -6.0f64..6.0, 0u8..16), n)
+            .prop_map(|v| v.iter().map(|(s, e, z)| if *z == 0 { 0.0 } else { 2f64.powf(*e) * if *s { -1.0 } else { 1.0 } }).collect::<Vec<f64>>())
+            .boxed()
+    }
+}
+
+mod simd {
+    pub const VARIANT: &str = "simd";
+    use ::glam_simd as glam;
+    include!("suite.rs");
+}
+mod scalar {
+    pub const VARIANT: &str = "scalar";
+    use ::glam_scalar as glam;
+    include!("suite.rs");
+}
+#[cfg(feature = "core")]
+mod core_simd {
+    pub const VARIANT: &str = "core";
+    use ::glam_core as glam;
+    include!("suite.rs");
+}
+
 fn main() {
-    eprintln!("c06: not implemented");
-    std::process::exit(2);
+    let args = Args::parse();
+    let mut subs = vec![];
+    #[cfg(not(feature = "core"))]
+    {
+        subs.extend(simd::subs(&args));
+        subs.extend(scalar::subs(&args));
+    }
+    #[cfg(feature = "core")]
+    {
+        subs.extend(core_simd::subs(&args));
+    }
+    let code = main_with("C06", "see MANIFEST / evidence rule", &args, subs);
+    std::process::exit(code);
 }
